@@ -1,4 +1,5 @@
 """C06 — SharedFuture: every observer sees the one value once, never before it exists (DESIGN.md §3 C06)."""
+from vlib import apiprobe
 from vlib import common as C
 from vlib import conc
 
@@ -16,7 +17,10 @@ UNREACHABLE = ['fTargetDec', 'fForwardPost', 'fRetire.move', 'oCasSpur.result', 
 
 def run(res, tier):
     res.assumptions += [
-        'one fulfilling thread, any number of observer threads each running any list of operations on its own SharedFuture copies '
+        'one fulfilling thread — a SharedPromise (MakeSharedContract / MakeSharedContractOn) set or dropped, a SharedFuture coroutine, '
+        'or an upstream unique core (Promise, coroutine Future, coroutine + ThenInline) whose callback the shared core is after '
+        'Split / Connect(f, SharedPromise), entered through SharedCore::Here or (symmetric transfer) SharedCore::Next — '
+        'any number of observer threads each running any list of operations on its own SharedFuture copies '
         '(attach inline / via executor / Wait / Connect-Share-Split target / When-style Retire, Get const&, Get &&, Ready, '
         'Ready-then-Touch, copy, destroy), executor jobs run by anybody at any later time',
         'the model allows stale pre-check loads of the callback word; the FIBER backend never produces them (model behaviours ⊇ '
@@ -27,6 +31,7 @@ def run(res, tier):
         'Ready() is BaseCore::Ready() (word == kResult, /repo c9c07bc); the monitor that exhibited D3 on the pinned tree '
         '(Ready() == true => Touch() reads the set value) is still armed',
     ]
+    apiprobe.stage(res, 'C06', tier)  # every public form of the area still instantiates (vlib/apiprobe.py, harness/api_probe_*.cpp)
     conc.concurrent_check(
         res, 'C06', tier, 'c06.cpp', 'shared', RULES,
         quick_args=['--mode', 'dfs', '--pb', '1', '--wb', '1'],
@@ -37,4 +42,7 @@ def run(res, tier):
 
 
 def replay(path):
+    r = apiprobe.replay(path)
+    if r is not None:
+        return r
     return conc.replay('C06', path)
